@@ -215,6 +215,19 @@ def run_z3(part, typing, S, keymask):
             return
     part.count("z3_solves")
     judge(part, case, vs, S, keymask, r, "z3")
+    # history on the same Solver: a find_answer (which writes a full model into .sol) and then solve again - the second
+    # deduction must report the same facts as the first (nothing may be carried over from the calls in between)
+    if (len(S) + sum(keymask)) % 2 == 0:
+        with warnings.catch_warnings():
+            warnings.simplefilter("ignore")
+            try:
+                s.find_answer(backend="z3")
+                r2 = s.solve(backend="z3")
+            except Exception as e:
+                part.violation("z3:second-solve-raises-" + type(e).__name__, dict(case, history="solve,find_answer,solve"), {"exception": repr(e)[:200]})
+                return
+        part.count("z3_solves")
+        judge(part, dict(case, history="solve,find_answer,solve"), vs, S, keymask, r2, "z3")
 
 
 # ---- text-protocol routes -----------------------------------------------------------
